@@ -104,3 +104,8 @@ CASES += [
       "        rhot = DensityMatrixEvolution(timeaxis=self.timeaxis, rhoi=rhoi,\n                                      is_in_rwa=True)",
       "        rhot = DensityMatrixEvolution(timeaxis=self.timeaxis, rhoi=rhoi)\n        rhot.is_in_rwa = True"),
 ]
+
+CASES += [
+    {"name": "composite bath silently collapsed to its first component (the repaired defect)", "kind": "mutant", "rule": "C16-J", "edits": [
+        ("quantarhei/qm/liouvillespace/heom.py", "            if len(cc.params) != 1:\n                raise Exception(\"HEOM is implemented for baths with a single\"\n                                +\" component; bath \"+str(ii)+\" has \"\n                                +str(len(cc.params)))\n", "", 1)]},
+]
